@@ -494,4 +494,4 @@ pub fn run(rep: &Report) {
     rep.floor("unsupported AH values observed", rep.counter("unsupported AH values observed"), 500);
 }
 
-pub const RULE: &str = "programs place text low, at a random segment and at the top of the 1 MiB space, set SS:SP/flags, then perform a history of 1-4 console service calls, each with DS/ES from {0xFFFF,0xFFF0,0,text segment,random}, buffer offsets {0,0xFFFF,0xFFFE,0xE,0xF,0xFF,random}, capacities {0,1,2,3,5,10,40,254,255}, CX {0,1,2,3,16,80,257,300}, characters incl. control and >=0x80, and a stdin script of lines of length {0,1,2,5,254..257,700,random} (ASCII, with multi-byte UTF-8 characters at the front/middle/end, with trailing blanks, with carriage returns inside the line), missing lines (end of input) and a last line without newline; every AH value 0..255 is run once for both INT 21h and INT 10h. Oracle: a reference of the five services over (hook-recorded registers, dumped memory, remaining stdin) predicts the stdout bytes (bytes >= 0x80 accepted raw or as UTF-8), AL, and for AH=0Ah the count bounds min(len,cap-1) <= count <= min(len+1,cap), the stored prefix of the line, one capacity convention for the whole run (over-long lines store `capacity` or `capacity-1` characters, never a mixture, also when a carriage return sits at the cut) and the window [DS:DX+1, DS:DX+1+cap] (addresses modulo 2^20) outside which no cell of the full 1 MiB may change; every other register, flag and memory cell must be identical in the records before and after; unsupported AH must be reported and stop the program. Distinct = (service, CX/output/capacity/line-length classes) and each unsupported (interrupt, AH). Breakpoints (answered n) between the service calls share the same standard input; input lines of 4095..4097, 8191..8193 and 70000 bytes; CX up to 65535.";
+pub const RULE: &str = "programs place text low, at a random segment and at the top of the 1 MiB space, set SS:SP/flags, then perform a history of 1-4 console service calls, each with DS/ES from {0xFFFF,0xFFF0,0,text segment,random}, buffer offsets {0,0xFFFF,0xFFFE,0xE,0xF,0xFF,random}, capacities {0,1,2,3,5,10,40,254,255}, CX {0,1,2,3,16,80,257,300}, characters incl. control and >=0x80, and a stdin script of lines of length {0,1,2,5,254..257,700,random} (ASCII, with multi-byte UTF-8 characters at the front/middle/end, with trailing blanks, with carriage returns inside the line), missing lines (end of input) and a last line without newline; every AH value 0..255 is run once for both INT 21h and INT 10h. Oracle: a reference of the five services over (hook-recorded registers, dumped memory, remaining stdin) predicts the stdout bytes (bytes >= 0x80 accepted raw or as UTF-8), AL, and for AH=0Ah the count bounds min(len,cap-1) <= count <= min(len+1,cap), the stored prefix of the line, one capacity convention for the whole run (over-long lines store `capacity` or `capacity-1` characters, never a mixture, also when a carriage return sits at the cut) and the window [DS:DX+1, DS:DX+1+cap] (addresses modulo 2^20) outside which no cell of the full 1 MiB may change; every other register, flag and memory cell must be identical in the records before and after; unsupported AH must be reported and stop the program. Distinct = (service, CX/output/capacity/line-length classes) and each unsupported (interrupt, AH). Breakpoints (answered n) between the service calls share the same standard input; input lines of 4095..4097, 8191..8193 and 70000 bytes; CX up to 65535. One input line in ten is not valid UTF-8: the service must report it and change nothing, and the next read gets the next line.";
